@@ -20,6 +20,8 @@ RULES = {
     "C15.R8": "AWQPackedTensor.pack/unpack delegate to the module packer/unpacker selected by the recorded packing with the recorded reorder flag, nothing re-positions the unpacked codes, and every reconstruction inside the class carries (packing, reorder) over unchanged",
     "C15.R9": "re-wrapping handlers: a QBitsTensor handler that rebuilds `t.__class__(...)` from `op(t._data)` is only registered for ops under which AWQPackedTensor stays packed (its __torch_dispatch__ keeps detach / _to_copy / to); otherwise the optimised constructor formats scale and zero-point a second time",
     "C15.R10": "the grouping helpers the optimised constructor and dequantizer rely on (ungroup before packing, group after unpacking) are inverse layouts (the rule of C02.R4)",
+    "C15.R16": "one dispatch table, two conventions: the optimised subclass stores its zero-point already scaled and negated, so a handler of the QBitsTensor table that rebuilds `type(t)` / `t.__class__` passes scale and zero-point through the dispatched op alone - arithmetic on either is only done on an operand known to be a plain QBitsTensor",
+    "C15.R15": "the packed AWQ payload is only ever copied whole: AWQPackedTensor.__torch_dispatch__ re-wraps the result of detach / clone / moves applied to its data with unchanged packing, reorder, size and stride, and no other site builds an AWQPackedTensor from packed data that was indexed, narrowed or reshaped (the layouts interleave rows and columns: a sub-range of the packed data is not the packing of a sub-range)",
     "C15.R14": "the standard representation the AWQ tensors must agree with is exact: scale * (codes - zeropoint) with the difference formed in a type that holds it, on every path of the QBits dequantizer (rule C02.R3 re-checked)",
     "C15.R13": "the AWQ representation survives flatten / unflatten: each AWQ tensor class is rebuilt as itself (a subclass with its own constructor does not inherit a reader that names its base) and its reader inverts its writer field by field (an Enum member is written by name / value and read through the Enum)",
     "C15.R11": "the packers widen before they shift: every `<<` in pack / pack_v2 applies to a value already cast to a 16/32/64-bit integer (a 4-bit code shifted by 4 in an int8 tensor - what v1 unpack returns - turns negative and sign-extends over the neighbouring lanes)",
@@ -109,6 +111,8 @@ def run(chk):
             else:
                 chk.unknown("C15.R13", site, detail)
     chk.floor("C15.R13", len(awq_classes), 2, "AWQ tensor classes")
+    packed_closed(chk, awq_mi)
+    shared_table_conventions(chk)
     if chk.pid == "C15":
         # "the same values as the standard representation": the reference side of that comparison is the QBits dequantizer
         from ..report import AliasedCheck
@@ -623,3 +627,90 @@ def pure_layout(chk, awq_mi):
         chk.require("C15.R12", f"{awq_mi.rel}:{fn.lineno}", not bad, f"{name}: no module-level mutable state involved ({bad})", name, "layout function uses module-level state",
                     "a sequence of calls: unpacking a matrix after a narrower one was unpacked on the same device returns the narrower index (a (8,128) matrix comes back as (8,64))")
     chk.floor("C15.R12", n, 4, "AWQ layout functions checked for purity")
+
+
+def packed_closed(chk, awq_mi):
+    """C15.R15: every constructor call AWQPackedTensor(data, packing, reorder, size, stride) outside `pack` takes its data from `<t>._data` through the
+    dispatched op alone (a whole copy), and its other fields from the same tensor."""
+    repo = chk.repo
+    ci = repo.cls("AWQPackedTensor")
+    init = repo.method(ci, "__init__")[1]
+    WHOLE = {"torch.ops.aten.detach", "torch.ops.aten.clone", "torch.ops.aten._to_copy", "torch.ops.aten.to", "torch.ops.aten.alias"}
+    from .c06 import _served_ops
+    served = _served_ops(ci)
+    extra = sorted(served - WHOLE)
+    chk.require("C15.R15", f"{ci.mod.rel}:{ci.own('__torch_dispatch__').lineno}", not extra, f"AWQPackedTensor.__torch_dispatch__ keeps the packed form for whole copies only (it serves {sorted(served)})", "AWQPackedTensor.__torch_dispatch__",
+                f"packed form kept under {','.join(x.split('.')[-1] for x in extra)}", "a v2-packed weight sharded by columns on a 32-column boundary (packed[:, 32:96]): the result is not the packing of that sub-matrix - about 94% of its codes unpack wrong")
+    n = 0
+
+    def expand(d, fn, line):
+        if isinstance(d, ast.Name):
+            defs = [a_.value for a_ in ast.walk(fn) if isinstance(a_, ast.Assign) and a_.lineno < line and any(isinstance(t_, ast.Name) and t_.id == d.id for t_ in a_.targets)]
+            if defs:
+                return defs[-1]
+        return d
+
+    def whole_copy(d):
+        """`op(<t>._data, ...)`: the dispatched op applied to the packed data of one tensor, nothing else -> the text of <t>, else None"""
+        if isinstance(d, ast.Call) and U(d.func) == "op" and len(d.args) == 1 and U(d.args[0]).endswith("._data"):
+            return U(d.args[0])[:-6]
+        return None
+
+    methods = {f.name: f for f in ci.node.body if isinstance(f, ast.FunctionDef)}
+    for fn in [x for x in ast.walk(ci.mod.tree) if isinstance(x, ast.FunctionDef)]:  # the class and the module-level helpers of its module
+        if fn.name in ("pack", "__tensor_unflatten__", "load_from_state_dict"):
+            continue  # built from freshly packed data / from the serialized fields
+        params = [a.arg for a in fn.args.args]
+        for c in [x for x in ast.walk(fn) if isinstance(x, ast.Call) and U(x.func) in ("AWQPackedTensor", "cls", "type(self)", "self.__class__")]:
+            b = bind_call(init, c, skip_first=1)
+            if b is None or "data" not in b:
+                continue
+            n += 1
+            d = expand(b["data"], fn, c.lineno)
+            if isinstance(d, ast.Name) and d.id in params and params and params[0] == "self":
+                # a re-wrapping helper `def _with_data(self, data)`: the other fields are its own, and every caller hands it a whole copy of the receiver's data
+                own = all(U(b[k]) in (f"self._{k}", f"self.{k}()") for k in ("packing", "reorder", "size", "stride") if k in b)
+                idx = params.index(d.id) - 1
+                calls = [x for f2 in methods.values() for x in ast.walk(f2) if isinstance(x, ast.Call) and isinstance(x.func, ast.Attribute) and x.func.attr == fn.name and len(x.args) > idx]
+                ok_calls = bool(calls) and all(whole_copy(expand(x.args[idx], next(f2 for f2 in methods.values() if any(y is x for y in ast.walk(f2))), x.lineno)) == U(x.func.value) for x in calls)
+                chk.require("C15.R15", f"{ci.mod.rel}:{c.lineno}", own and ok_calls, f"{fn.name}: re-wraps the data it is handed with the receiver's own packing, reorder, size and stride, and each of its {len(calls)} caller(s) hands it a whole copy of the receiver's packed data",
+                            f"AWQPackedTensor.{fn.name}", "packed data re-wrapped after indexing", "a v2-packed weight sharded by columns on a 32-column boundary (packed[:, 32:96]): the result is not the packing of that sub-matrix")
+                continue
+            src = whole_copy(d)
+            same = src is not None and all(U(b[k]) in (f"{src}._{k}", f"{src}.{k}()") for k in ("packing", "reorder", "size", "stride") if k in b)
+            chk.require("C15.R15", f"{ci.mod.rel}:{c.lineno}", same, f"{fn.name}: AWQPackedTensor(`{U(d)[:50]}`, ...) is a whole copy of the packed data of one tensor with that tensor's packing, reorder, size and stride",
+                        f"AWQPackedTensor.{fn.name}", "packed data re-wrapped after indexing", "a v2-packed weight sharded by columns on a 32-column boundary (packed[:, 32:96]): the result is not the packing of that sub-matrix")
+    chk.floor("C15.R15", n, 1, "AWQPackedTensor constructor sites outside pack / readers")
+
+
+def shared_table_conventions(chk):
+    """C15.R16: in each handler of the QBitsTensor table, every constructor call of the operand's own class (`t.__class__(...)`, `type(t)(...)`) receives
+    `op(t._scale)` / `op(t._zeropoint)` (or the fields themselves); an expression that computes with them is accepted only under `type(t) is QBitsTensor`
+    or after `t.qbits_tensor()`."""
+    from ..registries import handlers
+    repo = chk.repo
+    qb = repo.cls("QBitsTensor")
+    init = qb.own("__init__")
+    n = 0
+    for h in handlers(repo)["qbits"]:
+        for p in paths_of(h.fn):
+            if p.end[0] != "return" or p.end[1] is None:
+                continue
+            for c in [x for x in ast.walk(p.end[1]) if isinstance(x, ast.Call)]:
+                f_ = c.func
+                dyn = (isinstance(f_, ast.Attribute) and f_.attr == "__class__") or (isinstance(f_, ast.Call) and U(f_.func) == "type" and len(f_.args) == 1)
+                if not dyn or len(c.args) + len(c.keywords) < 8:
+                    continue
+                b = bind_call(init, c, skip_first=1)
+                if b is None:
+                    continue
+                n += 1
+                owner = U(f_.value) if isinstance(f_, ast.Attribute) else U(f_.args[0])
+                plain = p.holds(f"type({owner}) is QBitsTensor") is True or p.holds(f"type({owner}) == QBitsTensor") is True or p.holds(f"type({owner}) != QBitsTensor") is False or ".qbits_tensor()" in owner
+                for fld in ("scale", "zeropoint"):
+                    v = b.get(fld)
+                    t_ = U(v) if v is not None else ""
+                    through = t_ in (f"{owner}._{fld}", f"op({owner}._{fld})") or (isinstance(v, ast.Call) and U(v.func) == "op" and v.args and U(v.args[0]) == f"{owner}._{fld}" and not any(isinstance(x, ast.BinOp) for x in ast.walk(v)))
+                    chk.require("C15.R16", f"{h.mi.rel}:{p.end[2]}", through or plain, f"{h.name}: `{owner}.__class__(..., {fld}={t_[:40]})` hands the {fld} over unchanged (or the operand is known to be a plain QBitsTensor: {plain})", h.name,
+                                f"{fld} computed in a handler shared with the optimised subclass", "an AWQBitsTensor multiplied by a positive scalar: its zero-point is stored as -(zero-point x scale) and is not rescaled, so the product dequantizes to c*scale*code - scale*zp")
+    chk.floor("C15.R16", n, 1, "own-class constructor calls in the QBitsTensor table")
